@@ -100,7 +100,12 @@ def write_files(files, directory):
     from astropy.io import fits
     os.makedirs(directory, exist_ok=True)
     paths = []
+    written = set()
     for fi, f in enumerate(files):
+        if f["name"] in written:      # the same path given more than once: one file on disk, listed again
+            paths.append(os.path.join(directory, f["name"]))
+            continue
+        written.add(f["name"])
         hdus = []
         for hi, h in enumerate(f["hdus"]):
             if h["kind"] == "empty":
@@ -129,8 +134,10 @@ def image_indices(f):
     return [i for i, h in enumerate(f["hdus"]) if h["kind"] in ("image", "comp")]
 
 
-def make_file(fi, kinds, keys, rng, free):
-    """kinds: list of 'empty'|'table'|'image'|'comp'. TAN-grid sets differ in CRPIX only."""
+def make_file(fi, kinds, keys, rng, free, spread=False):
+    """kinds: list of 'empty'|'table'|'image'|'comp'. TAN-grid sets differ in CRPIX only.
+    spread: the HDUs (and WCS solutions) of ONE file are placed apart too (sets that list a path
+    more than once select several HDUs of one file, which must not overlap in the tiles)."""
     hdus = []
     for hi, kind in enumerate(kinds):
         if kind in ("empty", "table"):
@@ -144,6 +151,8 @@ def make_file(fi, kinds, keys, rng, free):
             if free:
                 sol["crval"] = [10.0 + 7 * ki + fi, 20.0 - 3 * ki + hi]
                 sol["cdelt"] = [-0.01 * (1 + ki), 0.01 * (1 + ki)]
+            if spread:
+                sol["crpix"][1] = 5.0 + 12.0 * hi + 70.0 * ki
             wcs[key] = sol
         dtype = "float32"
         if free:
@@ -177,6 +186,40 @@ def fixed_sets():
     return sets
 
 
+def dup_sets():
+    """Input lists that name THE SAME PATH more than once (two extensions of one multi-extension
+    file, ...): "files" are the distinct files, "order" gives the file for each list position."""
+    mef = ["empty", "image", "image", "image"]
+    mef2 = ["empty", "table", "image", "image"]
+    other = ["image", "image", "image"]
+    k2, k3 = [" ", "A"], [" ", "A", "B"]
+    out = []
+
+    def add(name, files, keys, order, tan=True):
+        out.append({"name": name, "tan": tan, "spread": True, "files": files, "keys": keys, "order": order})
+
+    add("dup_mef_twice", [mef], [k3], [0, 0])
+    add("dup_mef_mef_other", [mef, other], [k2, k2], [0, 0, 1])
+    add("dup_mef_other_mef", [mef, other], [k2, k2], [0, 1, 0])
+    add("dup_other_mef_mef", [mef, other], [k2, k2], [1, 0, 0])
+    add("dup_interleaved", [mef, mef2], [k2, k2], [0, 1, 0, 1])
+    add("dup_mef_thrice", [mef], [k2], [0, 0, 0])
+    add("dup_free_wcs", [mef, other], [k3, k2], [0, 0, 1], tan=False)
+    return out
+
+
+def random_dup_set(rng, k):
+    d = random_set(rng, k)
+    nf = len(d["files"])
+    npos = rng.randint(nf + 1, nf + 2)
+    while True:
+        order = [rng.randrange(nf) for _ in range(npos)]
+        if len(set(order)) < len(order):
+            break
+    d.update({"name": "random_dup_%d" % k, "spread": True, "order": order})
+    return d
+
+
 def random_set(rng, k):
     nf = rng.randint(2, 4)
     files, keys = [], []
@@ -192,8 +235,27 @@ def random_set(rng, k):
 
 
 def realise(setdesc, rng):
-    files = [make_file(fi, kinds, setdesc["keys"][fi], rng, not setdesc["tan"]) for fi, kinds in enumerate(setdesc["files"])]
-    return {"name": setdesc["name"], "tan": setdesc["tan"], "files": files}
+    spread = bool(setdesc.get("spread"))
+    files = [make_file(fi, kinds, setdesc["keys"][fi], rng, not setdesc["tan"], spread) for fi, kinds in enumerate(setdesc["files"])]
+    fs = {"name": setdesc["name"], "tan": setdesc["tan"], "files": files}
+    if setdesc.get("order") is not None:
+        # per-position manifest: entries of one file are the same manifest (same name -> same path)
+        fs["files"] = [files[o] for o in setdesc["order"]]
+        fs["order"] = list(setdesc["order"])
+    return fs
+
+
+def dup_groups(fs):
+    """Lists of positions that name the same path (only groups of >= 2)."""
+    by = {}
+    for i, f in enumerate(fs["files"]):
+        by.setdefault(f["name"], []).append(i)
+    return [g for g in by.values() if len(g) > 1]
+
+
+def differs_on_dups(fs, sel):
+    """A per-position list that gives different entries to (some) positions naming the same path."""
+    return isinstance(sel, list) and any(len(set(sel[i] for i in g)) > 1 for g in dup_groups(fs))
 
 
 # ----------------------------------------------------------------------------------------
@@ -249,6 +311,13 @@ def selections_for(fs, rng, max_lists, n_keylists):
     key_sels = [None] + common_keys
     seen = set()
     tries = 0
+    if fs.get("order") is not None:
+        allk = list(itertools.product(*keysets))
+        if len(allk) <= n_keylists:
+            seen = set(allk)
+        else:   # half of the lists give different keys to positions naming the same path
+            want = [t for t in allk if differs_on_dups(fs, list(t))]
+            seen = set(rng.sample(want, min(len(want), n_keylists // 2)))
     while len(seen) < n_keylists and tries < 200:
         tries += 1
         t = tuple(rng.choice(k) for k in keysets)
@@ -569,6 +638,8 @@ def _witness(fs, route, hdu_sel, wcs_sel, single_str, extra):
     w = {"route": route, "hdu_index": hdu_sel, "hdu_index_kind": kind_of(hdu_sel), "wcs_key": wcs_sel,
          "wcs_key_kind": kind_of(wcs_sel), "n_files": len(fs["files"]), "single_str": single_str,
          "set": fs["name"], "tan": fs["tan"], "files": fs["files"]}
+    if fs.get("order") is not None:
+        w["path_order"] = fs["order"]      # list position -> distinct file (the same path occurs more than once)
     w.update(extra)
     return w
 
@@ -581,9 +652,14 @@ def run(ctx):
     descs = fixed_sets()
     if thorough:
         descs += [random_set(rng, k) for k in range(20)]
+    n_plain = len(descs)
+    descs += dup_sets()
+    if thorough:
+        descs += [random_dup_set(rng, k) for k in range(8)]
     sets = [realise(d, rng) for d in descs]
     max_lists = 400 if thorough else 40
     n_keylists = 8 if thorough else 3
+    n_keylists_dup = 16 if thorough else 8
     n_tf = 60 if thorough else 12
     ctx.bound("%d generated file sets (1-4 files x 3-6 HDUs; empty/image primaries, binary tables before images, a tile-compressed "
               "image HDU; 2-3 WCS solutions per HDU)" % len(sets))
@@ -591,6 +667,10 @@ def run(ctx):
               "random ones; WCS key: none, every common scalar, %d seeded per-file lists" % (max_lists, max_lists, n_keylists))
     ctx.bound("routes: collection.load (list and single-str input) and `toasty view` CLI for every selection; `toasty tile-multi-tan` CLI "
               "for scalar selections; tile_fits end-to-end (TAN mode, parallel=1) for <= %d selections per set" % n_tf)
+    ctx.bound("%d of these sets name THE SAME PATH more than once in the input list ([mef, mef], [mef, mef, other], [mef, other, mef], "
+              "[other, mef, mef], [a, b, a, b], [mef, mef, mef]%s): every per-position HDU list (the positions of one file get "
+              "different HDUs), <= %d per-position key lists (all if fewer), same routes; tile_fits picks start with lists that "
+              "differ on the repeated path" % (len(sets) - n_plain, ", 8 seeded random orders with repeats" if thorough else "", n_keylists_dup))
     ctx.assume("astropy.io.fits / astropy.wcs write the generated files and read tiles back faithfully")
     ctx.assume("CLI routes: FitsTiler / MultiTanProcessor are replaced by recorders from outside the repo; the argparse set-up, "
                "CollectionLoader.create_from_args and load_paths are the real ones")
@@ -598,12 +678,17 @@ def run(ctx):
     pool_jobs = []   # (set index, [jobs])
     tf_jobs = []
     for si, fs in enumerate(sets):
-        hdu_sels, key_sels = selections_for(fs, rng, max_lists, n_keylists)
+        is_dup = fs.get("order") is not None
+        hdu_sels, key_sels = selections_for(fs, rng, max_lists, n_keylists_dup if is_dup else n_keylists)
         jobs = []
         n = len(fs["files"])
         for hs in hdu_sels:
             # every HDU selection with the default key and with 2 other key selections; every key selection at least with 2 HDU selections
             ks_for = [None] + rng.sample(key_sels[1:], min(2, len(key_sels) - 1))
+            if is_dup:   # plus one key list that differs on the repeated path
+                dk = [ks for ks in key_sels if differs_on_dups(fs, ks) and ks not in ks_for]
+                if dk:
+                    ks_for.append(rng.choice(dk))
             for ks in ks_for:
                 jobs.append(("load", hs, ks, False))
                 jobs.append(("cli_view", hs, ks, False))
@@ -629,6 +714,23 @@ def run(ctx):
         firsts = [(None, None)] + [(hs, None) for hs in hdu_sels if isinstance(hs, list)][:3] + \
                  [(hs, ks) for hs in hdu_sels[1:3] for ks in key_sels if isinstance(ks, list)][:2] + \
                  [(hs, ks) for hs in hdu_sels if not isinstance(hs, list) and hs is not None for ks in key_sels if ks not in (None, " ") and not isinstance(ks, list)][:2]
+        if is_dup:
+            dh = [hs for hs in hdu_sels if differs_on_dups(fs, hs)]
+            dk = [ks for ks in key_sels if differs_on_dups(fs, ks)]
+            firsts = [(hs, None) for hs in dh[:3]] + [(hs, ks) for hs, ks in zip(dh[3:6], dk)] + \
+                     [(hs, ks) for hs, ks in zip(rng.sample(dh, min(2, len(dh))), rng.sample(dk, min(2, len(dk))))] + firsts
+
+            def one_place_per_hdu(c):
+                # the tile oracle identifies an HDU's pixels by value: one HDU may not be placed twice at different places
+                place = {}
+                for i, f in enumerate(fs["files"]):
+                    k = (f["name"], expected_hdu(fs["files"], i, c[0]))
+                    if place.setdefault(k, expected_key(i, c[1])) != expected_key(i, c[1]):
+                        return False
+                return True
+
+            firsts = [c for c in firsts if one_place_per_hdu(c)]
+            cand = [c for c in cand if one_place_per_hdu(c)]
         for c in firsts + rng.sample(cand, min(len(cand), n_tf)):
             if c not in pick and len(pick) < n_tf:
                 pick.append(c)
